@@ -1,2 +1,43 @@
-(* C12 -- theorem statements are being added; see DESIGN.md. *)
-From HS Require Import Lib.Base.
+(* C12 -- body size hints and the end-of-stream flag are truthful at every step. *)
+From HS Require Import Lib.Base Model.Body Proofs.BodyP Proofs.BodyRun.
+
+(* Bodies from serve (Once, ExactLen, Multipart) and from Body::from / Body::empty (Once) give an
+   exact hint (body_hint is a number, lower = upper). At every point of every run that goes on to
+   end cleanly, that hint equals the number of bytes still delivered: split a run anywhere. *)
+Theorem c12_hint_truthful_at_every_step : forall n1 n2 streams b rs1 rs2 bm bf,
+  run n1 streams b = Ok (rs1, bm) -> run n2 streams bm = Ok (rs2, bf) ->
+  existsb is_perr rs2 = false -> existsb is_pend rs2 = true ->
+  body_hint bm = delivered rs2.
+Proof. exact hint_truthful_at_every_step. Qed.
+
+(* The hint is never below what will still come, even when the run ends in an error. *)
+Theorem c12_hint_upper_bound : forall n streams b rs bf, run n streams b = Ok (rs, bf) ->
+  delivered rs + body_hint bf <= body_hint b /\
+  (existsb is_perr rs = false -> delivered rs + body_hint bf = body_hint b).
+Proof. exact run_never_more. Qed.
+
+(* Whenever a body says it is at end-of-stream, no further poll delivers a byte ... *)
+Theorem c12_eos_no_more_data : forall n streams b rs bf,
+  body_eos b = true -> run n streams b = Ok (rs, bf) -> delivered rs = 0.
+Proof. exact eos_no_more_data. Qed.
+
+(* ... and, over an entity stream that honours its contract, none reports an error; the body
+   reaches its clean end within (events left + 1) polls. *)
+Theorem c12_honest_no_error : forall n streams x rs bf, honest_x x ->
+  run n streams (BExact x) = Ok (rs, bf) -> existsb is_perr rs = false.
+Proof. exact honest_exact_no_error. Qed.
+Theorem c12_honest_ends : forall streams x, honest_x x ->
+  exists rs bf, run (S (length (x_s x))) streams (BExact x) = Ok (rs, bf) /\ existsb is_pend rs = true.
+Proof. exact honest_exact_ends. Qed.
+
+(* Body::from(..) / Body::empty(): exact hint = length; at end-of-stream exactly when taken or empty *)
+Theorem c12_once : forall o, body_hint (BOnce o) = match o with Some d => lenN d | None => 0 end /\
+                             (body_eos (BOnce o) = true <-> o = None).
+Proof. intros [d|]; cbn; split; try reflexivity; split; congruence. Qed.
+
+Print Assumptions c12_hint_truthful_at_every_step.
+Print Assumptions c12_hint_upper_bound.
+Print Assumptions c12_eos_no_more_data.
+Print Assumptions c12_honest_no_error.
+Print Assumptions c12_honest_ends.
+Print Assumptions c12_once.
